@@ -40,6 +40,26 @@ Qed.
 End MxFacts.
 
 (* ------------------------------------------------------------------ *)
+(** * The shape of the code, written by hand.
+      Gen/Kalman.v contains ONLY the three returned values of `correct`, as fully inlined
+      terms (their text does not depend on the names of the local variables, on helper
+      functions or on equivalent numpy spellings).  The intermediates of the algorithm are
+      named HERE, in terms of the specification; the characterising lemmas below prove the
+      generated outputs equal to these shapes, and nothing else refers to the generated text. *)
+Section CodeShape.
+Variable F : fieldType.
+Variables n m : nat.
+Variable cholesky : 'M[F]_m -> 'M[F]_m.
+Variables (x : 'cV[F]_n) (P : 'M[F]_n) (z : 'cV[F]_m) (H : 'M[F]_(m, n)) (R : 'M[F]_m).
+Definition correct_HP : 'M[F]_(m, n) := H *m P.
+Definition correct_S : 'M[F]_m := innov_cov P H R.
+Definition correct_e : 'cV[F]_m := z - H *m x.
+Definition correct_L : 'M[F]_m := cholesky correct_S.
+Definition correct_K : 'M[F]_(n, m) := (cho_solve correct_L correct_HP)^T.
+Definition correct_U : 'M[F]_n := 1%:M - correct_K *m H.
+End CodeShape.
+
+(* ------------------------------------------------------------------ *)
 (** * Characterising lemmas: the only place where the generated
       definitions are unfolded. *)
 Section Characterise.
@@ -53,8 +73,15 @@ Local Notation L := (correct_L cholesky P H R).
 Local Notation K := (correct_K cholesky P H R).
 Local Notation U := (correct_U cholesky P H R).
 
+(** generated text = hand-written shape: by conversion when the code has the original shape, otherwise after
+    unfolding both sides and normalising the association of products *)
+Ltac code_shape :=
+  first [ by []
+        | by rewrite /correct_ret0 /correct_ret1 /correct_ret2 /correct_U /correct_K /correct_L /correct_e
+                     /correct_S /correct_HP /innov_cov /solve_triangular /cho_solve ?mulmxA ?trmxK ].
+
 Lemma correct_S_eq : S = innov_cov P H R.
-Proof. by rewrite /correct_S /correct_HP /innov_cov. Qed.
+Proof. by []. Qed.
 
 Lemma correct_L_eq : L = cholesky S.
 Proof. by []. Qed.
@@ -69,14 +96,14 @@ Lemma correct_U_eq : U = 1%:M - K *m H.
 Proof. by []. Qed.
 
 Lemma correct_ret0_eq : correct_ret0 cholesky x P z H R = x + K *m (z - H *m x).
-Proof. by []. Qed.
+Proof. code_shape. Qed.
 
 Lemma correct_ret1_eq :
   correct_ret1 cholesky P H R = U *m P *m U^T + K *m R *m K^T.
-Proof. by []. Qed.
+Proof. code_shape. Qed.
 
 Lemma correct_ret2_eq : correct_ret2 cholesky x P z H R = invmx L *m (z - H *m x).
-Proof. by rewrite /correct_ret2 /solve_triangular. Qed.
+Proof. code_shape. Qed.
 
 End Characterise.
 
@@ -815,7 +842,7 @@ split; rewrite ?tr_scalar_mx //.
 - by split=> //; apply: psd_scalar; rewrite ler0n.
 - by split=> //; apply: pd_scalar; rewrite ltr01.
 - split; first exact: is_lower_scalar.
-  rewrite /correct_S /correct_HP tr_scalar_mx !mul1mx trmx1 mulmx1.
+  rewrite /correct_S /innov_cov tr_scalar_mx !mul1mx trmx1 mulmx1.
   by rewrite -scalar_mxM -raddfD /= -natrM -(natrD _ 3 1).
 - by rewrite unitmxE det_scalar1 unitfE pnatr_eq0.
 Qed.
@@ -829,7 +856,7 @@ by rewrite addr0.
 Qed.
 
 Lemma correct_S_P0 (n m : nat) (H : 'M[F]_(m, n)) (R : 'M[F]_m) : correct_S 0 H R = R.
-Proof. by rewrite /correct_S /correct_HP mulmx0 mul0mx add0r. Qed.
+Proof. by rewrite /correct_S /innov_cov mulmx0 mul0mx add0r. Qed.
 
 Lemma example_sequential (n m1 m2 : nat) (H1 : 'M[F]_(m1, n)) (H2 : 'M[F]_(m2, n)) :
   let P : 'M[F]_n := 0 in
